@@ -87,7 +87,7 @@ var (
 	genesisModuleOrder = []string{
 		authtypes.ModuleName, banktypes.ModuleName,
 		distrtypes.ModuleName, stakingtypes.ModuleName, slashingtypes.ModuleName, govtypes.ModuleName,
-		minttypes.ModuleName, crisistypes.ModuleName, genutiltypes.ModuleName, evidencetypes.ModuleName, authz.ModuleName,
+		minttypes.ModuleName, genutiltypes.ModuleName, evidencetypes.ModuleName, authz.ModuleName,
 		feegrant.ModuleName, group.ModuleName, paramstypes.ModuleName, upgradetypes.ModuleName,
 		vestingtypes.ModuleName, consensustypes.ModuleName,
 		coinswaptypes.ModuleName,
@@ -99,6 +99,9 @@ var (
 		randomtypes.ModuleName,
 		recordtypes.ModuleName,
 		tokentypes.ModuleName,
+		// crisis asserts every registered invariant in its InitGenesis, so it must come after
+		// the modules whose invariants it checks (farm, htlc, nft, mt, service, ...)
+		crisistypes.ModuleName,
 	}
 
 	// module account permissions
